@@ -231,6 +231,17 @@ func (s *c06State) checkSelect(p *rm.Pred, cols []string, star bool, phase strin
 	if forceScan {
 		tags = append(tags, "forced-scan")
 	}
+	if !star {
+		seenCol := map[string]bool{}
+		for _, c := range cols {
+			if seenCol[c] {
+				tags = append(tags, "select-list-repeats-a-column")
+				s.res.Add("select_lists_naming_a_column_twice", 1)
+				break
+			}
+			seenCol[c] = true
+		}
+	}
 	switch {
 	case panicked:
 		s.dead = true
@@ -549,6 +560,20 @@ func c06Run(env *core.Env, idx int) *core.CaseResult {
 			k := 1 + r.Intn(len(cols))
 			for _, j := range perm[:k] {
 				st.cols = append(st.cols, cols[j].Name)
+			}
+			// every fourth written list names a column more than once (at the end, or anywhere): the optimizer decides
+			// whether a final projection is needed by comparing the list with the columns the scan delivers, and a
+			// repeated column makes the two lists equally long without being equal (seeded change C06j)
+			if r.Intn(4) == 0 {
+				for d := 1 + r.Intn(2); d > 0; d-- {
+					dup := st.cols[r.Intn(len(st.cols))]
+					if r.Intn(2) == 0 {
+						st.cols = append(st.cols, dup)
+					} else {
+						at := r.Intn(len(st.cols) + 1)
+						st.cols = append(st.cols[:at], append([]string{dup}, st.cols[at:]...)...)
+					}
+				}
 			}
 		}
 		if !p.HasOr() && n >= 2 {
